@@ -227,6 +227,30 @@ fn concurrent_cases(t: Tier) -> Vec<EncCase> {
     (0..t.pick(16u64, 64)).map(|w| EncCase { messages: 0, seed: w }).collect()
 }
 
+/// the ten short codes and two normal ones, each built and handed to the encoder inside a rayon
+/// pool of a single thread (a one-CPU container, RAYON_NUM_THREADS=1)
+fn single_thread_cases(_t: Tier) -> Vec<EncCase> {
+    STANDARD.iter().enumerate().filter(|(_, s)| s.1 == 16200 || s.0 == "R1_2" || s.0 == "R9_10").map(|(i, _)| EncCase { messages: i, seed: 0 }).collect()
+}
+
+fn check_single_thread(case: &EncCase, p: &mut Probe) -> Check {
+    let digests = read_digests(&golden_dir().join("dvbs2").join("DIGESTS"));
+    // (the case's `messages` field carries the index of the code)
+    let s = &STANDARD[case.messages % STANDARD.len()];
+    let (code, (n, k, _, _)) = lookup(s.0)?;
+    let pool = rayon::ThreadPoolBuilder::new().num_threads(1).build().map_err(|e| Fail::new(INCONCLUSIVE, format!("cannot build a rayon pool: {e}")))?;
+    let h = guarded(|| pool.install(|| code.h())).map_err(|e| Fail::new("panic", format!("{}: h() panicked inside a single-thread rayon pool: {e}", s.0)))?;
+    ensure!(h.num_cols() == n && h.num_rows() == n - k, "dimensions", "{}: matrix is {} x {}", s.0, h.num_rows(), h.num_cols());
+    let got = columns_digest(n - k, &sorted_columns(&h));
+    let want = digests.get(s.0).ok_or_else(|| Fail::new("golden-missing", format!("{}: no pinned digest", s.0)))?;
+    ensure!(&got == want, "single-thread-build", "{}: the matrix built inside a single-thread rayon pool differs from the pinned reference", s.0);
+    let enc = guarded(|| pool.install(|| ldpc_toolbox::encoder::Encoder::from_h(&h))).map_err(|e| Fail::new("panic", format!("{}: Encoder::from_h panicked inside a single-thread rayon pool: {e}", s.0)))?;
+    ensure!(enc.is_ok(), "encoder-rejects", "{}: Encoder::from_h failed inside a single-thread rayon pool: {:?}", s.0, enc.err());
+    p.inner += 1;
+    p.nontrivial();
+    Ok(())
+}
+
 fn check_concurrent(case: &EncCase, p: &mut Probe) -> Check {
     let digests = read_digests(&golden_dir().join("dvbs2").join("DIGESTS"));
     let short: Vec<_> = STANDARD.iter().filter(|s| s.1 == 16200).collect();
@@ -280,6 +304,13 @@ pub fn property() -> Property {
                 rule: "16 (thorough 64) workers, each building 20 times one of the ten short codes in its own pseudo-random order, all at the same time: dimensions and pinned digest of every matrix built; inner = matrices built",
                 cases: concurrent_cases,
                 check: check_concurrent,
+                exhaustive: false,
+            }),
+            Box::new(EnumSub {
+                name: "single-thread-pool",
+                rule: "the ten short codes and normal 1/2 and 9/10, each built and handed to Encoder::from_h inside a rayon pool of one thread (a one-CPU container): the calls return (a call that has not returned after 60 s is reported), the matrix has the pinned digest, the encoder accepts it",
+                cases: single_thread_cases,
+                check: check_single_thread,
                 exhaustive: false,
             }),
         ],
